@@ -11,7 +11,11 @@ PROPS = ["C%02d" % i for i in range(1, 21)]
 
 def sync(d):
     os.makedirs(d, exist_ok=True)
-    subprocess.run(["rsync", "-a", "--delete", "--exclude", ".git", "--exclude", ".vcache", "--exclude", ".vev", "--exclude", "_build", REPO + "/", d + "/"], check=True)
+    # _build carries the generated headers the checks need; object files and test binaries are not needed (and change while a test run is going on)
+    r = subprocess.run(["rsync", "-a", "--delete", "--exclude", ".git", "--exclude", ".vcache", "--exclude", ".vev", "--exclude", "*.o", "--exclude", "*.a", "--exclude", "*.so*",
+                        "--exclude", "_build/bin", "--exclude", "_build/Testing", "--exclude", "CMakeFiles", REPO + "/", d + "/"])
+    if r.returncode not in (0, 24):
+        raise subprocess.CalledProcessError(r.returncode, "rsync")
 
 
 def env(d):
